@@ -42,8 +42,8 @@ inductive ROp where
 
 def ROp.ok : ROp → Prop
   | .plain op => op.ok
-  | .writeRaced _ vals => PFrame.ok (.settings vals)
-  | .openRaced r vals => 0 < r.hdrLen ∧ PFrame.ok (.settings vals)
+  | .writeRaced _ _ => True
+  | .openRaced r _ => 0 < r.hdrLen
 
 /-- the SETTINGS frame as the peer's history sees it: its own frame, then the client's answer -/
 def settingsEvents (st : State) (vals : List (Nat × Nat)) : State × List Event :=
